@@ -377,6 +377,33 @@ R2 == res.kind \in {"dry", "refused"} => res.writes = 0
 \* the reader and the writer agree on the layout: an undamaged file is always readable
 Layout == uf.exists /\ uf.hdr.tdb >= 1 /\ uf.hdr.fsbs >= 1 => ReadKeys(uf, {}).ok
 
+
+\* ------------------------------------------------------------------ the append position
+RECURSIVE KeyBlockPos(_, _, _, _)
+\* positions of the key blocks as the reader of the format walks them
+KeyBlockPos(u, i, lblk, acc) ==
+   IF i >= u.hdr.nkeys THEN acc
+   ELSE LET kb == FB(u.fb, lblk)
+            m  == Min2(Kpb(u.hdr.tdb), u.hdr.nkeys - i)
+        IN IF kb.t # "k" \/ Len(kb.keys) < m THEN acc \o <<lblk>>
+           ELSE LET RECURSIVE S(_) S(j) == IF j = 0 THEN 0 ELSE S(j - 1) + CeilDiv(kb.keys[j].size, u.hdr.tdb)
+                IN KeyBlockPos(u, i + Kpb(u.hdr.tdb), lblk + 1 + S(m), acc \o <<lblk>>)
+
+\* the position at which the writer appends is the end of the file as its reader walks it (a reopened channel too):
+\* data block and key block of the next save lie behind every block the file holds, and never on top of each other
+FileEnd(u) == IF u.exists /\ u.hdr.tdb >= 1 /\ u.hdr.fsbs >= 1
+              THEN LET rk == ReadKeys(u, {})
+                       ends == {rk.keys[i].fileblk + CeilDiv(rk.keys[i].size, u.hdr.tdb) : i \in 1..Len(rk.keys)}
+                               \cup {p + 1 : p \in {KeyBlockPos(u, 0, 2, <<>>)[i] : i \in 1..Len(KeyBlockPos(u, 0, 2, <<>>))}}
+                               \cup {2}
+                   IN CHOOSE m \in ends : \A x \in ends : x <= m
+              ELSE 2
+AppendPos == ch.open /\ ch.tdbw = 1 /\ uf.exists /\ uf.hdr.tdb >= 1 /\ uf.hdr.fsbs >= 1 /\ ReadKeys(uf, {}).ok =>
+               /\ ch.ublk >= FileEnd(uf)
+               /\ ch.kblk < ch.ublk
+               /\ (ch.kib > 0 => ch.kblk \in {KeyBlockPos(uf, 0, 2, <<>>)[i] : i \in 1..Len(KeyBlockPos(uf, 0, 2, <<>>))})
+               /\ (ch.kib = 0 /\ ch.nkeys > 0 => ch.kblk >= FileEnd(uf))
+
 TypeOK == /\ len \in N..MaxLen /\ nops \in 0..MaxOps /\ nruns \in 0..MaxRuns
           /\ (DevReopenFull \/ ch.kib <= (IF ch.tdb >= 1 THEN Kpb(ch.tdb) ELSE 0))
 =============================================================================
